@@ -40,9 +40,17 @@ def _num(v, style):
     return {0: str(v), 1: hex(v), 2: '$%x' % v, 3: '%' + bin(v)[2:] if v < 256 else str(v), 4: '%XH' % v}[style]
 
 
+# blanks in front of / behind the comparison operator, per style: their number and kind carry no meaning
+GAPS = {0: (' ', ' '), 1: ('   ', '  '), 2: ('\t', ' '), 3: ('  ', ' '), 4: (' ', '\t\t')}
+
+
 def cond_text(s, style):
     """One scenario of Cond.tla as source text: the left-hand side through #define'd symbols, the right-hand side written in
-    decimal / 0x / $ / binary, quoted or not."""
+    decimal / 0x / $ / binary, quoted or not; a text scenario compares two words."""
+    g1, g2 = GAPS[style]
+    if s.get('lw'):
+        rhs = f'"{s["rw"]}"' if s['q'] else s['rw']
+        return f'#define LNUM {s["lw"]}\n#if LNUM{g1}{s["op"]}{g2}{rhs}\n.byte 1\n#else\n.byte 2\n#endif\n'
     lhs = 'LNUM' if s['b'] == 1 else f'LNUM/{_num(s["b"], style % 2)}'
     if s['bare']:
         cond = f'#if {lhs}'
@@ -50,7 +58,7 @@ def cond_text(s, style):
         rhs = _num(s['c'], style) if s['d'] == 1 else f'{_num(s["c"], style)}/{_num(s["d"], 0)}'
         if s['q']:
             rhs = f'"{rhs}"'
-        cond = f'#if {lhs} {s["op"]} {rhs}'
+        cond = f'#if {lhs}{g1}{s["op"]}{g2}{rhs}'
     return f'#define LNUM {_num(s["a"], 0)}\n{cond}\n.byte 1\n#else\n.byte 2\n#endif\n'
 
 
@@ -66,7 +74,7 @@ def cond_eval(e):
         if obs['status'] != 'ok':
             return {'m': f'condition rejected: {(obs.get("msg") or "")[:120]}', 'case': case, 'text': text}
         if obs['image'] != want:
-            return {'m': f'condition {text.splitlines()[1]!r} with LNUM = {s["a"]}: the integers are {e["l"]} and {e["r"]}, so it {"holds" if e["holds"] else "does not hold"}; '
+            return {'m': f'condition {text.splitlines()[1]!r} after {text.splitlines()[0]!r}: the integers are {e["l"]} and {e["r"]}' + (f' (texts {s["lw"]} / {s["rw"]})' if s.get('lw') else '') + f', so it {"holds" if e["holds"] else "does not hold"}; '
                          f'the implementation selected the {"#if" if obs["image"] == b"\x01" else "#else"} branch', 'case': case, 'text': text}
     return None
 
@@ -100,8 +108,8 @@ def run(chk):
                  'AsmCore!ReadStep (Trace_Read.tla): compiled flag, mute flag, current zone, condition stack depth and branch state, and '
                  'label scope identity; corrupted traces must be rejected.')
     chk.rule += (' Meaning of a condition (spec/Cond.tla): scenarios L op R with L = a/b through a #define, R = c/d, six operators, R quoted or not, '
-                 'numbers spelled decimal / 0x / $ / binary / with an H suffix (AH, 10H, 68H), and the bare form; integers are compared (each side truncated toward zero), quotes and '
-                 'spelling carry no meaning; TLC checks the sign-of-difference formulation against the direct one; the real code must select the branch Holds says.')
+                 'numbers spelled decimal / 0x / $ / binary / with an H suffix (AH, 10H, 68H), and the bare form; integers are compared (each side truncated toward zero), quotes, '
+                 'spelling and the blanks or tabs around the operator carry no meaning; text scenarios (a symbol whose value is a word against a word, == and !=) compare the texts; TLC checks the sign-of-difference formulation against the direct one; the real code must select the branch Holds says.')
     chk.assumptions = ['an evaluated condition over a valueless symbol, and a bare #if over an undefined symbol, are not generated; S == v over an undefined symbol is false (documentation and code agree)',
                        'lines inside unselected branches are well-formed', 'unterminated blocks at end of file are not generated']
     chk.exhaustive = True
